@@ -216,12 +216,12 @@ func c05(c *Ctx) {
 
 	c.c05A2()
 	c.c05A3()
-	c.c05A4()
+	c.deliveryLoop("C05.A4")
 }
 
-// c05A4: the delivery loop hands a batch to the client connection only when it is not older than the client's position,
-// and advances the position before it does ("delivers that message exactly once").
-func (c *Ctx) c05A4() {
+// deliveryLoop (C05.A4 = C04.P2): the delivery loop hands a batch to the client connection only when it is not older than
+// the client's position, and advances the position before it does ("delivers that message exactly once").
+func (c *Ctx) deliveryLoop(rule string) {
 	r := c.R
 	gm := c.MustFunc("api.(*HTTP).getMessages")
 	if gm == nil {
@@ -239,7 +239,7 @@ func (c *Ctx) c05A4() {
 		}
 	}
 	if pos == nil {
-		r.Break("C05.A4: getMessages has no robust.Id parameter")
+		r.Break(rule + ": getMessages has no robust.Id parameter")
 		return
 	}
 	// the GetNext call and the variable holding its result
@@ -262,7 +262,7 @@ func (c *Ctx) c05A4() {
 		return true
 	})
 	if next == nil || res == nil {
-		r.Break("C05.A4: no `x = output.GetNext(...)` in getMessages")
+		r.Break(rule + ": no `x = output.GetNext(...)` in getMessages")
 		return
 	}
 	nextV := g.VertexOf(next)
@@ -310,7 +310,7 @@ func (c *Ctx) c05A4() {
 				fresh = true
 			}
 		}
-		r.Check(fresh, "C05.A4", gm.Name(), "a batch is delivered only if it is not older than the client's position", c.P.Pos(send.Pos()), "the send is dominated by the false edge of <batch id> < <position>",
+		r.Check(fresh, rule, gm.Name(), "a batch is delivered only if it is not older than the client's position", c.P.Pos(send.Pos()), "the send is dominated by the false edge of <batch id> < <position>",
 			"a batch returned by GetNext is handed to the client although it may be older than what the client has already seen (a node that is behind after a restart or fail-over): messages are delivered twice")
 		// the position advances to the delivered batch on every path from GetNext to the send
 		adv := func(x int) bool {
@@ -326,10 +326,66 @@ func (c *Ctx) c05A4() {
 			return false
 		}
 		skipped := g.Reach(nextV, adv, nil)[v.ID]
-		r.Check(!skipped, "C05.A4", gm.Name(), "the position advances to the batch before it is delivered", c.P.Pos(send.Pos()), "<position> = <batch>[0].Id on every path from GetNext to the send",
+		r.Check(!skipped, rule, gm.Name(), "the position advances to the batch before it is delivered", c.P.Pos(send.Pos()), "<position> = <batch>[0].Id on every path from GetNext to the send",
 			"a batch is delivered without the position being advanced to it: the next GetNext returns the same batch again and the client receives it repeatedly")
 	}
-	r.Check(n >= 1, "C05.A4", gm.Name(), "delivery sends found", c.P.Pos(gm.Node().Pos()), itoa(n), "no send of a GetNext result found in getMessages")
+	// the back-off branch is taken only for strictly older batches: on every edge on which the batch may carry the
+	// position's own id (<=, ==) a delivery must still be reachable before the next GetNext — the remainder of that batch
+	// is what the client is waiting for. (go/cfg has no vertices for continue/break, so the rule is stated on edges.)
+	var sendVs []int
+	for _, v := range g.Nodes() {
+		if send, ok := v.Node.(*ast.SendStmt); ok && astx.Mentions(info, send.Value, res) && g.Reach(nextV, nil, nil)[v.ID] {
+			sendVs = append(sendVs, v.ID)
+		}
+	}
+	for _, v := range g.V {
+		for _, e := range v.Succ {
+			if e.Cond == nil || e.Tag != nil || !g.Reach(nextV, nil, nil)[e.From] {
+				continue
+			}
+			mayEqual := false
+			for _, fct := range cfgx.ExpandCond(e.Cond, e.Val) {
+				be, ok := ast.Unparen(fct.Expr).(*ast.BinaryExpr)
+				if !ok {
+					continue
+				}
+				op, x, y := be.Op, be.X, be.Y
+				if rooted(y, res) && rooted(x, pos) {
+					x, y = y, x
+					switch op {
+					case token.LSS:
+						op = token.GTR
+					case token.LEQ:
+						op = token.GEQ
+					case token.GTR:
+						op = token.LSS
+					case token.GEQ:
+						op = token.LEQ
+					}
+				}
+				if !rooted(x, res) || !rooted(y, pos) {
+					continue
+				}
+				// the edge is taken (also) when batch id == position id, and it is the "older or equal" side
+				if (op == token.LEQ && fct.Val) || (op == token.GTR && !fct.Val) || (op == token.EQL && fct.Val) || (op == token.NEQ && !fct.Val) {
+					mayEqual = true
+				}
+			}
+			if !mayEqual {
+				continue
+			}
+			reach := g.Reach(e.To, func(x int) bool { return x == nextV }, nil)
+			can := false
+			for _, sv := range sendVs {
+				if reach[sv] || sv == e.To {
+					can = true
+				}
+			}
+			r.Check(can, rule, gm.Name(), "a batch with the position's own id can still be delivered", c.P.Pos(e.Cond.Pos()), "a send is reachable from the `<=` / `==` edge before the next GetNext",
+				"a batch with the position's own id is held back (the staleness test is not strict): the remainder of the reply the client was reading is never delivered")
+		}
+	}
+	r.Check(n >= 1, rule, gm.Name(), "delivery sends found", c.P.Pos(gm.Node().Pos()), itoa(n), "no send of a GetNext result found in getMessages")
 }
 
 func litSummary(info *types.Info, cl *ast.CompositeLit) string {
